@@ -184,10 +184,17 @@ package band
 //@   props C14 C15
 //@   modifies nothing
 //@   ensures valid: forall k int :: 0 <= k && k < len(result) ==> 0 <= result[k] && result[k] < len(b.uplinkChannels)
+//@   ensures member: forall k int :: 0 <= k && k < len(result) ==> b.uplinkChannels[result[k]].enabled
+//@   ensures ascending: forall k int, j int :: 0 <= k && k < j && j < len(result) ==> result[k] < result[j]
 //@   ensures fresh: result == nil || fresh(result)
 //@   loop 0: invariant idx: rangeindex >= 0 - 1 && rangeindex < len(b.uplinkChannels)
 //@   loop 0: invariant out-fresh: out == nil || fresh(out)
 //@   loop 0: invariant valid: forall k int :: 0 <= k && k < len(out) ==> 0 <= out[k] && out[k] <= rangeindex
+//@   loop 0: invariant member: forall k int :: 0 <= k && k < len(out) ==> b.uplinkChannels[out[k]].enabled
+//@   loop 0: invariant ascending: forall k int, j int :: 0 <= k && k < j && j < len(out) ==> out[k] < out[j]
+//@   loop 0: step take: b.uplinkChannels[rangeindex].enabled ==> len(out) == prev(len(out)) + 1 && out[len(out)-1] == rangeindex
+//@   loop 0: step skip: !(b.uplinkChannels[rangeindex].enabled) ==> len(out) == prev(len(out))
+//@   loop 0: step keep: forall j int :: 0 <= j && j < prev(len(out)) ==> out[j] == prev(out[j])
 //@   loop 0: modifies c
 //@   loop 0: decreases len(b.uplinkChannels) - rangeindex
 
@@ -316,3 +323,85 @@ package band
 //@   loop 1: invariant mask-complete: forall k int :: 0 <= k && k <= rangeindex && enabledChannels[k] >= chMaskCntl*16 && enabledChannels[k] < (chMaskCntl+1)*16 ==> pl.ChMask[enabledChannels[k] % 16]
 //@   loop 1: modifies pl.ChMask
 //@   loop 1: decreases len(enabledChannels) - rangeindex
+
+// C15: the index-list accessors as recurrences: channel i is appended exactly when it has the property
+// (take / skip), earlier entries stay (keep); hence the result lists, in ascending order, exactly the channels with
+// the property (standard, custom, enabled, disabled), and GetUplinkChannelIndices lists 0..n-1.
+//@ func (*band).GetStandardUplinkChannelIndices
+//@   props C15
+//@   modifies nothing
+//@   ensures valid: forall k int :: 0 <= k && k < len(result) ==> 0 <= result[k] && result[k] < len(b.uplinkChannels)
+//@   ensures member: forall k int :: 0 <= k && k < len(result) ==> !b.uplinkChannels[result[k]].custom
+//@   ensures ascending: forall k int, j int :: 0 <= k && k < j && j < len(result) ==> result[k] < result[j]
+//@   ensures fresh: result == nil || fresh(result)
+//@   loop 0: invariant idx: rangeindex >= 0 - 1 && rangeindex < len(b.uplinkChannels)
+//@   loop 0: invariant out-fresh: out == nil || fresh(out)
+//@   loop 0: invariant valid: forall k int :: 0 <= k && k < len(out) ==> 0 <= out[k] && out[k] <= rangeindex
+//@   loop 0: invariant member: forall k int :: 0 <= k && k < len(out) ==> !b.uplinkChannels[out[k]].custom
+//@   loop 0: invariant ascending: forall k int, j int :: 0 <= k && k < j && j < len(out) ==> out[k] < out[j]
+//@   loop 0: step take: !b.uplinkChannels[rangeindex].custom ==> len(out) == prev(len(out)) + 1 && out[len(out)-1] == rangeindex
+//@   loop 0: step skip: !(!b.uplinkChannels[rangeindex].custom) ==> len(out) == prev(len(out))
+//@   loop 0: step keep: forall j int :: 0 <= j && j < prev(len(out)) ==> out[j] == prev(out[j])
+//@   loop 0: modifies c
+//@   loop 0: decreases len(b.uplinkChannels) - rangeindex
+//@ func (*band).GetCustomUplinkChannelIndices
+//@   props C15
+//@   modifies nothing
+//@   ensures valid: forall k int :: 0 <= k && k < len(result) ==> 0 <= result[k] && result[k] < len(b.uplinkChannels)
+//@   ensures member: forall k int :: 0 <= k && k < len(result) ==> b.uplinkChannels[result[k]].custom
+//@   ensures ascending: forall k int, j int :: 0 <= k && k < j && j < len(result) ==> result[k] < result[j]
+//@   ensures fresh: result == nil || fresh(result)
+//@   loop 0: invariant idx: rangeindex >= 0 - 1 && rangeindex < len(b.uplinkChannels)
+//@   loop 0: invariant out-fresh: out == nil || fresh(out)
+//@   loop 0: invariant valid: forall k int :: 0 <= k && k < len(out) ==> 0 <= out[k] && out[k] <= rangeindex
+//@   loop 0: invariant member: forall k int :: 0 <= k && k < len(out) ==> b.uplinkChannels[out[k]].custom
+//@   loop 0: invariant ascending: forall k int, j int :: 0 <= k && k < j && j < len(out) ==> out[k] < out[j]
+//@   loop 0: step take: b.uplinkChannels[rangeindex].custom ==> len(out) == prev(len(out)) + 1 && out[len(out)-1] == rangeindex
+//@   loop 0: step skip: !(b.uplinkChannels[rangeindex].custom) ==> len(out) == prev(len(out))
+//@   loop 0: step keep: forall j int :: 0 <= j && j < prev(len(out)) ==> out[j] == prev(out[j])
+//@   loop 0: modifies c
+//@   loop 0: decreases len(b.uplinkChannels) - rangeindex
+//@ func (*band).GetDisabledUplinkChannelIndices
+//@   props C15
+//@   modifies nothing
+//@   ensures valid: forall k int :: 0 <= k && k < len(result) ==> 0 <= result[k] && result[k] < len(b.uplinkChannels)
+//@   ensures member: forall k int :: 0 <= k && k < len(result) ==> !b.uplinkChannels[result[k]].enabled
+//@   ensures ascending: forall k int, j int :: 0 <= k && k < j && j < len(result) ==> result[k] < result[j]
+//@   ensures fresh: result == nil || fresh(result)
+//@   loop 0: invariant idx: rangeindex >= 0 - 1 && rangeindex < len(b.uplinkChannels)
+//@   loop 0: invariant out-fresh: out == nil || fresh(out)
+//@   loop 0: invariant valid: forall k int :: 0 <= k && k < len(out) ==> 0 <= out[k] && out[k] <= rangeindex
+//@   loop 0: invariant member: forall k int :: 0 <= k && k < len(out) ==> !b.uplinkChannels[out[k]].enabled
+//@   loop 0: invariant ascending: forall k int, j int :: 0 <= k && k < j && j < len(out) ==> out[k] < out[j]
+//@   loop 0: step take: !b.uplinkChannels[rangeindex].enabled ==> len(out) == prev(len(out)) + 1 && out[len(out)-1] == rangeindex
+//@   loop 0: step skip: !(!b.uplinkChannels[rangeindex].enabled) ==> len(out) == prev(len(out))
+//@   loop 0: step keep: forall j int :: 0 <= j && j < prev(len(out)) ==> out[j] == prev(out[j])
+//@   loop 0: modifies c
+//@   loop 0: decreases len(b.uplinkChannels) - rangeindex
+//@ func (*band).GetUplinkChannelIndices
+//@   props C15
+//@   modifies nothing
+//@   ensures all: len(result) == len(b.uplinkChannels) && forall k int :: 0 <= k && k < len(result) ==> result[k] == k
+//@   ensures fresh: result == nil || fresh(result)
+//@   loop 0: invariant idx: rangeindex >= 0 - 1 && rangeindex < len(b.uplinkChannels)
+//@   loop 0: invariant out-fresh: out == nil || fresh(out)
+//@   loop 0: invariant all: len(out) == rangeindex + 1 && forall k int :: 0 <= k && k < len(out) ==> out[k] == k
+//@   loop 0: decreases len(b.uplinkChannels) - rangeindex
+// the frequency lookups: the FIRST channel with that frequency among the default (custom == false) resp. custom
+// channels; an error exactly when there is none
+//@ func (*band).GetUplinkChannelIndex
+//@   props C15
+//@   modifies nothing
+//@   ensures found: err == nil ==> 0 <= result0 && result0 < len(b.uplinkChannels) && b.uplinkChannels[result0].Frequency == frequency && b.uplinkChannels[result0].custom != defaultChannel
+//@   ensures first: err == nil ==> forall k int :: 0 <= k && k < result0 ==> !(b.uplinkChannels[k].Frequency == frequency && b.uplinkChannels[k].custom != defaultChannel)
+//@   ensures none: err != nil ==> forall k int :: 0 <= k && k < len(b.uplinkChannels) ==> !(b.uplinkChannels[k].Frequency == frequency && b.uplinkChannels[k].custom != defaultChannel)
+//@   loop 0: invariant idx: rangeindex >= 0 - 1 && rangeindex < len(b.uplinkChannels)
+//@   loop 0: invariant none-so-far: forall k int :: 0 <= k && k <= rangeindex ==> !(b.uplinkChannels[k].Frequency == frequency && b.uplinkChannels[k].custom != defaultChannel)
+//@   loop 0: modifies channel
+//@   loop 0: decreases len(b.uplinkChannels) - rangeindex
+// frequency + data-rate: a default channel wins over a custom one; the channel returned has the frequency and covers the data-rate
+//@ func (*band).GetUplinkChannelIndexForFrequencyDR
+//@   props C15
+//@   modifies nothing
+//@   ensures found: err == nil ==> 0 <= result0 && result0 < len(b.uplinkChannels) && b.uplinkChannels[result0].Frequency == frequency && b.uplinkChannels[result0].MinDR <= dr && dr <= b.uplinkChannels[result0].MaxDR
+//@   loop 0: unroll
